@@ -193,6 +193,47 @@ def read_records(data, budget=True):
     return records, None
 
 
+OTHER_FILE = (b'#diffx: encoding=utf-8, version=1.0\n#.preamble: length=6\n'
+              b'hello\n#.change:\n#..preamble: length=3\nhi\n#..file:\n'
+              b'#...meta: format=json, length=9\n{"a": 1}\n'
+              b'#...diff: length=3\nab\n')
+
+
+def read_records_lockstep(data, other=OTHER_FILE, abandon_first=True):
+    """Like read_records(data, budget=False), but in the company of other
+    readers: one abandoned after two records, one advanced alternately
+    with ours (over ``other``, which must be readable)."""
+    ns = load()
+
+    if abandon_first:
+        it = iter(ns.DiffXReader(io.BytesIO(other)))
+        next(it)
+        next(it)
+
+    mine = iter(ns.DiffXReader(io.BytesIO(data)))
+    theirs = iter(ns.DiffXReader(io.BytesIO(other)))
+    n_other = 0
+    records = []
+
+    while True:
+        try:
+            records.append(next(mine))
+        except StopIteration:
+            break
+        except Exception as e:
+            return records, e
+
+        try:
+            next(theirs)
+            n_other += 1
+        except StopIteration:
+            theirs = iter(ns.DiffXReader(io.BytesIO(other)))
+        except Exception as e:
+            raise HarnessError('the companion file is not readable: %r' % e)
+
+    return records, None
+
+
 def innermost_pydiffx_frame(exc):
     """(file basename, function) of the innermost frame inside pydiffx."""
     tb = exc.__traceback__
